@@ -67,4 +67,16 @@ PLAN = {
         min_nontrivial=dict(quick=300, thorough=3000),
         runs=both("", dict(cases=4000, size=100, shards=16, budget=45), dict(cases=100000, size=150, shards=16, budget=900)),
     ),
+    "C05": dict(
+        rule=("stateful histories over {add/new rows, ranged rows, cols; delete rows/cols by index, list, flag set, name; change "
+              "coef/objcoef/rhs/range/sense(s)/bound(s)/objsense; load basis (object/arrays); copy (continue on either side)} "
+              "interleaved with solves by QSexact_solver, mpq_QSopt_primal, mpq_QSopt_dual under random pricing/scaling, and with "
+              "probes of every solution accessor. After each solve: status and value must equal those of a freshly built copy of "
+              "the current model solved by QSexact_solver, and the returned solution must pass the exact optimality certificate "
+              "against the current model; each probe must fail or serve a still-optimal solution. Non-trivial = a solve that starts "
+              "from retained state after >=1 edit; distinct = distinct history text."),
+        technique="stateful model-based PBT, differential against solve-from-scratch + certificate oracle",
+        min_nontrivial=dict(quick=500, thorough=5000),
+        runs=both("", dict(cases=5000, size=100, budget=45), dict(cases=150000, size=150, budget=900)),
+    ),
 }
